@@ -526,4 +526,5 @@ def run(ctx: Ctx, tier: str) -> Result:
     borrow(ctx, res, tier, "c07", ("C07.INJECT",), "C02.IDS", "variable ids are never handed out twice (a later value does not overwrite a collected one)")
     borrow(ctx, res, tier, "c07", ("C07.ENTRY",), "C02.IDS", "every watch result points at an entry of the snapshot's table: what was given an id has its entry kept")
     borrow(ctx, res, tier, "c11", ("C11.SIB",), "C02.TYPE", "the frame_type the tracepoint was given is the one the snapshot action works with (taken over as given by the builder)")
+    borrow(ctx, res, tier, "c05", ("C05.DEPTH",), "C02.VAR", "children of containers and objects are collected down to the configured depth (depth counted from 0 at the value collected)")
     return res
